@@ -25,7 +25,7 @@ class Diverge(Exception):
 
 
 class State:
-    __slots__ = ("fr", "stack", "heap", "kb", "cons", "pc", "guard")
+    __slots__ = ("fr", "stack", "heap", "kb", "cons", "pc", "guard", "ctl")
 
     def __init__(self):
         self.fr = {}      # frame id -> {local: value}
@@ -35,6 +35,7 @@ class State:
         self.cons = {}    # sid -> (lo, hi)
         self.pc = frozenset()
         self.guard = None
+        self.ctl = frozenset()   # deps of the payload-dependent branch conditions taken in the current function
 
     def copy(self):
         s = State()
@@ -45,6 +46,7 @@ class State:
         s.cons = dict(self.cons)
         s.pc = self.pc
         s.guard = self.guard
+        s.ctl = self.ctl
         return s
 
 
@@ -333,6 +335,13 @@ class Interp:
                 if clo > lo or chi < hi:
                     lo, hi = max(lo, clo), min(hi, chi)
                     ch = True
+            if v.bits is not None and state.cons:
+                bk = ("bits", v.ty, v.bits)
+                if bk in state.cons:
+                    clo, chi = state.cons[bk]
+                    if clo > lo or chi < hi:
+                        lo, hi = max(lo, clo), min(hi, chi)
+                        ch = True
             aff = v.aff
             if aff is not None and state.kb and any(a[0] == "b" and a[1] in state.kb for a in aff.t):
                 from .domain import Aff
@@ -348,12 +357,27 @@ class Interp:
             if ch:
                 return IntV(v.ty, bits, lo, hi, aff, v.deps, v.sid, v.term)
             return v
+        if isinstance(v, BoolV) and v.val is None and v.bit is not None and state.kb and v.bit != TBIT and not bit_is_const(v.bit):
+            b = v.bit
+            if b[0] == "b" and b[1] in state.kb:
+                return BoolV(bool(state.kb[b[1]]))
+            if b[0] == "x" and all(n in state.kb for n in b[1]):
+                c = b[2]
+                for n in b[1]:
+                    c ^= state.kb[n]
+                return BoolV(bool(c))
         return v
 
     def refine(self, state, b, truth):
         """narrow `state` assuming BoolV b == truth; returns False if that is impossible"""
         if b.val is not None:
             return b.val == truth
+        if b.bit is not None and b.bit != TBIT and not bit_is_const(b.bit) and b.bit[0] == "b":
+            n = b.bit[1]
+            want = 1 if truth else 0
+            if n in state.kb and state.kb[n] != want:
+                return False
+            state.kb[n] = want
         o = b.origin
         if o is None:
             return True
@@ -404,6 +428,9 @@ class Interp:
             return False
         if a.sid is not None and (lo > a.lo or hi < a.hi):
             state.cons[a.sid] = (lo, hi)
+        if a.bits is not None and (lo > a.lo or hi < a.hi) and not any(x == TBIT for x in a.bits):
+            # structural identity: the same bit-vector expression is the same value wherever it is recomputed
+            state.cons[("bits", a.ty, a.bits)] = (lo, hi)
         # bit-level consequences: enumerate the free frame bits of `a` when few
         if a.bits is not None and b.is_const():
             free = []
@@ -534,6 +561,9 @@ class Interp:
         s.guard = None if gj is not None else (a.guard if a.guard == b.guard else None)
         if s.guard != a.guard:
             changed = True
+        s.ctl = a.ctl | b.ctl
+        if s.ctl != a.ctl:
+            changed = True
         return s, changed
 
     def vjoin(self, va, vb, gj):
@@ -558,6 +588,30 @@ class Interp:
                     out.append(TBIT)
                     lin = False
             return IntV(va.ty, tuple(out), min(va.lo, vb.lo), max(va.hi, vb.hi), None, va.deps | vb.deps)
+        if isinstance(va, IntV) and isinstance(vb, IntV) and va.ty == vb.ty:
+            # affine if-conversion:  v = vb + (va - vb) * [cond == p]   when va - vb is a constant
+            aa, ab = va.affine(), vb.affine()
+            c, p = gj
+            if aa is not None and ab is not None and c != TBIT and not bit_is_const(c):
+                d = aa.add(ab, -1)
+                if d.is_const():
+                    from .domain import Aff
+                    atom = ("b", c[1]) if c[0] == "b" else ("x", c[1], c[2])
+                    # [cond == p] = c if p == 1 else 1 - c
+                    if p == 1:
+                        ind = Aff(0, {atom: 1})
+                    else:
+                        ind = Aff(1, {atom: -1})
+                    aff = ab.add(ind.scale(d.c))
+                    return IntV(va.ty, None, min(va.lo, vb.lo), max(va.hi, vb.hi), aff, va.deps | vb.deps | va.deps)
+        if isinstance(va, BoolV) and isinstance(vb, BoolV) and va.bit is not None and vb.bit is not None:
+            c, p = gj
+            x, y = va.bit, vb.bit
+            if x == y:
+                return va
+            if x != TBIT and y != TBIT and bit_xor(x, y) == 1:
+                return BoolV(None, None, va.deps | vb.deps, None, bit_xor(bit_xor(x, c), p))
+            return join(va, vb)
         if isinstance(va, VecV) and isinstance(vb, VecV) and va.elems is not None and vb.elems is not None and len(va.elems) == len(vb.elems):
             return VecV([self.gjoin(x, y, gj) for x, y in zip(va.elems, vb.elems)], elem_ty=va.elem_ty)
         if isinstance(va, TupleV) and isinstance(vb, TupleV) and len(va.items) == len(vb.items):
@@ -850,6 +904,8 @@ class Interp:
         fid = next(self._frame)
         state.fr[fid] = {}
         state.stack.append(fid)
+        saved_ctl = state.ctl
+        state.ctl = frozenset()
         for i, a in enumerate(args):
             state.fr[fid][i + 1] = a
         work = []
@@ -899,6 +955,9 @@ class Interp:
         rv = ret_state.fr[fid].get(0)
         if rv is None:
             rv = TupleV(())
+        if ret_state.ctl:
+            rv = taint(rv, ret_state.ctl)
+        ret_state.ctl = saved_ctl
         if not keep_frame:
             del ret_state.fr[fid]
             ret_state.stack.pop()
@@ -1007,6 +1066,7 @@ class Interp:
                     if v == d.lo:
                         return [(b, state)]
                 return [(t["otherwise"], state)]
+            state.ctl = state.ctl | d.deps
             for v, b in targets:
                 if v < d.lo or v > d.hi:
                     continue
@@ -1040,6 +1100,11 @@ class Interp:
                     feas = False
                 if feas:
                     st.guard = None
+                    # a one-bit discriminant: `otherwise` after excluding 0 means the bit is 1
+                    if d.bits is not None and tv == {0}:
+                        nz = [x for x in d.bits if x != 0]
+                        if len(nz) == 1 and d.bits[0] == nz[0] and not bit_is_const(nz[0]) and nz[0] != TBIT:
+                            st.guard = (nz[0], True)
                     outs.append((t["otherwise"], st))
             return self._merge_same_target(outs)
         # unknown discriminant: all edges feasible
@@ -1067,6 +1132,10 @@ class Interp:
     def note_branch(self, state, b, truth):
         """record guard (for if-conversion at the next join) and path-condition atom"""
         state.guard = None
+        if b.val is None:
+            state.ctl = state.ctl | b.deps
+        if b.bit is not None and b.val is None and b.bit != TBIT and not bit_is_const(b.bit):
+            state.guard = (b.bit, bool(truth))
         o = b.origin
         neg = False
         while o is not None and o[0] == "not":
@@ -1084,7 +1153,7 @@ class Interp:
                         bit_true = (o[1] == "Ne")
                     elif c.lo == (1 << i):
                         bit_true = (o[1] == "Eq")
-                    if bit_true is not None:
+                    if bit_true is not None and state.guard is None:
                         cond_true = truth != neg
                         # bit value on this edge
                         val = cond_true == bit_true
@@ -1217,6 +1286,27 @@ class Interp:
             callee = {"path": f.path, "instance": f.path, "local": f.path in self.facts.bodies, "name": f.path.split("::")[-1]}
             return self.call(state, callee, f.path, list(args), None, {"span": None, "args": []})
         return self.unmodelled(state, {}, "call of %s" % getattr(f, "kind", f), args)
+
+
+def taint(v, deps):
+    """add control dependences to a value (implicit flow of the branches taken inside the callee)"""
+    deps = frozenset(("ctl", d) if isinstance(d, int) else d for d in deps)
+    if isinstance(v, IntV):
+        return v if deps <= v.deps else v._with(deps=v.deps | deps)
+    if isinstance(v, BoolV):
+        return v if deps <= v.deps else BoolV(v.val, v.origin, v.deps | deps, v.term, v.bit)
+    if isinstance(v, FloatV):
+        return v if deps <= v.deps else FloatV(v.lo, v.hi, v.deps | deps, v.term, v.ty, v.sid)
+    if isinstance(v, EnumV):
+        nv = {}
+        for n, (pl, g) in v.variants.items():
+            g2 = dict(g)
+            g2["deps"] = frozenset(g.get("deps", ())) | deps
+            nv[n] = (pl, g2)
+        return EnumV(v.adt, nv)
+    if isinstance(v, TupleV):
+        return TupleV([taint(x, deps) for x in v.items])
+    return v
 
 
 class _Variant:
